@@ -196,6 +196,35 @@ func (s *Script) render(mark int, guard, goal Term, comment string, logicStrings
 	return b.String()
 }
 
+// renderHead: like render, but of the lines emitted after headMark only declarations and definitions are kept
+func (s *Script) renderHead(headMark, mark int, guard, goal Term, comment string) string {
+	var b strings.Builder
+	b.WriteString("; " + strings.ReplaceAll(comment, "\n", "\n; ") + "\n")
+	b.WriteString("(set-option :produce-models true)\n")
+	b.WriteString("(set-logic ALL)\n")
+	for _, d := range s.sortDecls {
+		b.WriteString(d)
+		b.WriteByte('\n')
+	}
+	s.syncScopes()
+	for i, l := range s.lines[:mark] {
+		isAssert := strings.HasPrefix(l, "(assert")
+		if isAssert && i >= headMark {
+			continue
+		}
+		if sc := s.scopes[i]; sc != nil && isAssert && !sc.hasBreak && !s.inScope(sc) {
+			continue
+		}
+		if tg, ok := s.tags[i]; ok && tg != s.curTag {
+			continue
+		}
+		b.WriteString(l)
+		b.WriteByte('\n')
+	}
+	b.WriteString(fmt.Sprintf("(assert (not %s))\n(check-sat)\n", goal))
+	return b.String()
+}
+
 // ---------------------------------------------------------------------------------------------
 // helpers for building terms
 
